@@ -133,6 +133,17 @@ def oracle(ctx):
         if missing:
             res.oracle_failures.append(dict(op=op, input=text, impl_output=str(argv)[:600],
                                             oracle_expectation=f'{key} is read as {"a plain list (backslashes literal)" if kind == "lookup_all_strv" else "argument words (escapes decoded)"}: the words {want} reach the command; missing {missing}'))
+    # … and wherever the assignment is written: the same units with the list assignment moved into a drop-in (merged through
+    # load_dropins_from, where the raw text must survive unchanged) generate the same services
+    import filespell
+    LISTS = [value, 'a "b c" d', "it's 'x y' z", 'k="v w" l=x', 'a\tb  c', 't1\tt2', '"" e f', 'm="0 1000"', 'x\\y "p\"q"', "'s t'u v"]
+    sets = []
+    for ty, key, kind, text in conv_cases:
+        for _ in range(3 if ctx.thorough else 1):
+            stem = rnd.choice(['k', 'k', 'tpl@i'])
+            sets.append({f'{stem}.{ty}': '[' + G.SEC[ty] + ']\n' + ''.join(b + '\n' for b in G.BASE[ty]) + f'{key}={rnd.choice(LISTS)}\n'
+                         + (f'{key}={rnd.choice(LISTS)}\n' if rnd.random() < 0.4 else '')})
+    filespell.compare(ctx, sets, filespell.DROPIN_WAYS, 'C05 list assignments in drop-ins')
     # known finding KF-C05-1: re-confirm on its recorded example
     for kid, k in known.items():
         ex = json.load(open(os.path.join(core.VERIF, 'known_findings.d', k['example'])))
